@@ -329,6 +329,8 @@ def build(spec, decorate=None, on_action=None, budget=30):
           return None          # malformed handler: no status for an offered event (C24)
         if k == "handle":
           status = HANDLED
+        elif k == "ignore":
+          status = return_status.IGNORED      # "I have seen it, drop it": ends the search like HANDLED
         elif k == "decline":
           status = UNHANDLED
         else:
